@@ -63,6 +63,26 @@ N = {
 "C18-3": ("C18", "IntMin on a list whose int elements are all math.MaxInt / IntMax where all are math.MinInt: the fold's sentinel is mistaken for 'no int present'"),
 "C19-3": ("C19", "Sort called on a DERIVED list whose content is homogeneous and already in order: early return hands back the embedded list instead of the registered outer value"),
 "C20-3": ("C20", "a raw newline INSIDE a string literal (value or key) before a later syntax error: the fast path skips the line counter, cited line too small"),
+"C01-4": ("C01", "a FLOAT that is whole-valued with 1e6 <= |v| < 2^53 (printed in exponent form): the parser turns exponent-notation whole numbers into ints"),
+"C02-4": ("C02", "the float 2^63 exactly: a 'print whole floats in full' fast path converts through int64 and emits -9223372036854775808.0"),
+"C03-4": ("C03", "a literal U+FFFD character (EF BF BD) anywhere in a valid document: validity test reduced to char == RuneError"),
+"C04-4": ("C04", "an input that ENDS with a backslash inside a string or key: unchecked one-byte look-ahead panics (totality)"),
+"C05-4": ("C05", "l.Concat(l) (argument identical to the receiver) on a list holding nested containers: the argument is deep-cloned, so the second half holds copies"),
+"C06-4": ("C06", "Set with an ODD count of >= 3 arguments: the leading pairs are written before the panic (under our reading an odd count rejects the whole call)"),
+"C07-4": ("C07", "trees that differ only in a NESTED empty list vs empty object: size-based early 'continue' skips the kind test"),
+"C08-4": ("C08", "Clone of a list holding nested containers, observed through handles taken BEFORE the call: the clone keeps the source's nodes, the source receives the copies"),
+"C09-4": ("C09", "SubList over the whole range copies the struct including the self-pointer: Ego-routed calls on the result (Pop, Insert at end, chained calls, String) act on the receiver"),
+"C10-4": ("C10", "TypeOfTF with a NON-final list index equal to Count(): hand-written bounds check uses > instead of >=, panic instead of TypeUndefined"),
+"C11-4": ("C11", "SetTF whose leaf slot already holds a deep-EQUAL but not identical value (distinct container with equal content, 0.0 vs -0.0): write skipped"),
+"C12-4": ("C12", "a nil element inside []Object / []List passed to any entry point: stored as a kind-less nil field"),
+"C13-4": ("C13", "list -> list -> container chains: the inner list is exported one level only (Slice instead of NativeSlice)"),
+"C14-4": ("C14", "untyped Reduce on a list containing nil: generic helper's x.(any) assertion fails for nil, element skipped"),
+"C15-4": ("C15", "a MapAsync callback that itself calls MapAsync (any container): the per-call mutex became package-level, the inner workers wait for the lock held by the outer worker - deadlock"),
+"C16-4": ("C16", "indent x nesting depth > 128 spaces (depth >= 13 at indent 10 ... >= 129 at indent 1): indentation cut from a 64-space constant in at most two pieces - slice bounds panic"),
+"C17-4": ("C17", "an all-int list with two DIFFERENT ints above 2^53 that round to the same float64, out of order: numeric Sort orders by float64 value"),
+"C18-4": ("C18", "IntMin/IntMax on a list where a non-int element precedes an int: filter-in-place idiom compacts the receiver's own backing array (the call modifies the list)"),
+"C19-4": ("C19", "object UnsetTF with a path through a nested OBJECT (.a.b): tail call returns the nested object instead of the registered outer value"),
+"C20-4": ("C20", "ParseFile (only) on a file with a lone CR before the error: line endings 'normalised' to LF before parsing, cited line too large"),
 }
 rows = []
 base = '/verif/seeded'
@@ -73,7 +93,7 @@ for d in sorted(os.listdir(base)):
     m = json.load(open(p))
     prop, need = N.get(d, (d.split('-')[0], m.get('needs_to_manifest', '')))
     m['breaks_property'], m['needs_to_manifest'] = prop, need
-    m['round'] = 3 if d.endswith('-3') else 2 if d.endswith('-2') else 1
+    m['round'] = 4 if d.endswith('-4') else 3 if d.endswith('-3') else 2 if d.endswith('-2') else 1
     if d == "C06-merge-empty-receiver":
         m['classification'] = 'not a violation of the statement as we read it; not detected by design'
     json.dump(m, open(p, 'w'), indent=1)
@@ -84,7 +104,9 @@ tail = """
 First confrontation (before any strengthening): round 1 - 13 of 20 detected at once, 7 missed; round 2 - 7 of 20
 detected at once, 13 missed (most of them history-dependent); round 3 - 12 of 20 detected at once, 8 missed
 (size thresholds, byte classes, parser-made containers, argument mutation, integer overflow in a path index, keys ending in
-white space, concurrent Equals with an equal-length unequal operand). What was strengthened for each miss is described in
+white space, concurrent Equals with an equal-length unequal operand); round 4 - 14 of 20 detected at once, 6 missed
+(state after a rejected call, nil inside typed container slices, re-entrant async callbacks, nesting depth x indent, ints that
+collapse as float64, an entry point that rewrites its input). What was strengthened for each miss is described in
 DESIGN.md section 9. `tools/seed_all.sh` re-verifies every entry against the check of its property.
 """
 open(f'{base}/README.md', 'w').write(head + "| id | property | needs to manifest | compiles, tests pass, demo fails with / passes without | detected by (quick tier) |\n|---|---|---|---|---|\n" + "\n".join(rows) + "\n" + tail)
